@@ -51,6 +51,6 @@ pub struct Args {
     pub directories: Vec<PathBuf>,
 
     /// Optional restrict to target_os
-    #[arg(short, long, num_args = 1..)]
+    #[arg(short, long, num_args = 1.., value_delimiter = ',')]
     pub target_os: Option<Vec<String>>,
 }
